@@ -34,6 +34,7 @@ def run(ctx):
         return
     generator_rules(ctx, fv, tab)
     bits_rule(ctx)
+    panic_audit(ctx, "C01.G1", ["kmer::", "<kmer::"])       # every 1 <= k <= 31 is accepted: no new precondition
     # pykmertools.KmerGenerator is an observation point of this property: it must be the core iterator over the same bytes
     from . import c13
     c13.kmer_binding_rules(dep(ctx, "C01", "C13"))
